@@ -94,6 +94,7 @@ func main() {
 		replaySet = flag.String("replayset", "", "concrete mode: json array of replay vectors, all run in this process")
 		panicOK  = flag.Bool("panicok", false, "uncaught panics are not violations")
 		revMap   = flag.Bool("revmap", false, "iterate maps in reverse insertion order")
+		mapRot   = flag.Bool("maprotate", false, "fork over the starting point of every map iteration")
 		nomerge  = flag.Bool("nomerge", false, "disable function-level merging")
 		nodom    = flag.Bool("nodomains", false, "disable unary domain reasoning (every branch goes to the solver)")
 		slog     = flag.String("solverlog", "", "solver log prefix")
@@ -122,7 +123,7 @@ func main() {
 	t0 := time.Now()
 	conf := Config{Unwind: *unwind, MaxSteps: *maxSteps, MaxDepth: 400, MaxPaths: *maxPaths, MaxAlloc: 1 << 22,
 		MaxIteTable: 4096, MaxConcretize: 300, Workers: *workers, SolverKind: *solver, TimeoutMs: *timeout,
-		Trace: *trace, Verbose: *verbose, MapOrderReversed: *revMap, NoMerge: *nomerge, Bounds: map[string]int{},
+		Trace: *trace, Verbose: *verbose, MapOrderReversed: *revMap, MapRotate: *mapRot, NoMerge: *nomerge, Bounds: map[string]int{},
 		KnownOpen: map[string]bool{}, PanicOK: *panicOK, SolverLog: *slog, NoDomains: *nodom}
 	if *enc == "int" {
 		conf.Enc = EncInt
